@@ -31,7 +31,7 @@ def thresholds(tier):
        "form:always_ff": 50, "form:for": 5, "form:size cast N'(e)": 20, "form:replication": 50, "form:typedef struct packed": 50,
        "form:module instance": 50, "form:localparam": 1, "form:indexed part select +:": 1, "form:?:": 50}
   if tier == "thorough":
-    t.update({"programs": 3200, "generated_designs_cosimulated": 3000, "cycles_cosimulated": 70000})
+    t.update({"programs": 2400, "generated_designs_cosimulated": 2200, "cycles_cosimulated": 50000})
   return t
 
 
